@@ -21,8 +21,8 @@ import (
 	"os"
 	"runtime/debug"
 	"runtime/pprof"
-	"strings"
 	"strconv"
+	"strings"
 	"sync"
 	"sync/atomic"
 	"time"
@@ -498,16 +498,16 @@ func enumerate(r *vk.Run) {
 	{
 		forms := [][]int{
 			nil, {}, {192, 168, 1}, {192, 168, 1, 100}, {192, 168, 1, 100, 0},
-			{0x20, 0x01, 0x0d, 0xb8, 0, 0, 0, 0, 0, 0, 0, 0, 0, 0, 0, 1},     // 2001:db8::1
-			{0, 0, 0, 0, 0, 0, 0, 0, 0, 0, 0xff, 0xff, 192, 168, 1, 100},    // ::ffff:192.168.1.100
-			{0, 0, 0, 0, 0, 0, 0, 0, 0, 0, 0, 0, 192, 168, 1, 100},          // ::192.168.1.100 (not mapped)
-			{0, 0, 0, 0, 0, 0, 0, 0, 0, 0, 0, 0, 0, 0, 0, 0},                // ::
-			{0, 0, 0, 0, 0, 0, 0, 0, 0, 0, 0xff, 0xfe, 192, 168, 1, 100},    // almost mapped
-			{0, 0, 0, 0, 0, 0, 0, 0, 0, 1, 0xff, 0xff, 192, 168, 1, 100},    // almost mapped
-			{0, 0, 0, 0},                                                    // 0.0.0.0
-			{255, 255, 255, 255},                                            // broadcast
-			{0, 0, 0, 0, 0, 0, 0, 0, 0, 0, 0xff, 0xff, 0, 0, 0, 0},          // ::ffff:0.0.0.0
-			{0, 0, 0, 0, 0, 0, 0, 0, 0, 0, 0xff, 0xff, 255, 255, 255, 255},  // ::ffff:255.255.255.255
+			{0x20, 0x01, 0x0d, 0xb8, 0, 0, 0, 0, 0, 0, 0, 0, 0, 0, 0, 1}, // 2001:db8::1
+			{0, 0, 0, 0, 0, 0, 0, 0, 0, 0, 0xff, 0xff, 192, 168, 1, 100}, // ::ffff:192.168.1.100
+			{0, 0, 0, 0, 0, 0, 0, 0, 0, 0, 0, 0, 192, 168, 1, 100},       // ::192.168.1.100 (not mapped)
+			{0, 0, 0, 0, 0, 0, 0, 0, 0, 0, 0, 0, 0, 0, 0, 0},             // ::
+			{0, 0, 0, 0, 0, 0, 0, 0, 0, 0, 0xff, 0xfe, 192, 168, 1, 100}, // almost mapped
+			{0, 0, 0, 0, 0, 0, 0, 0, 0, 1, 0xff, 0xff, 192, 168, 1, 100}, // almost mapped
+			{0, 0, 0, 0},         // 0.0.0.0
+			{255, 255, 255, 255}, // broadcast
+			{0, 0, 0, 0, 0, 0, 0, 0, 0, 0, 0xff, 0xff, 0, 0, 0, 0},         // ::ffff:0.0.0.0
+			{0, 0, 0, 0, 0, 0, 0, 0, 0, 0, 0xff, 0xff, 255, 255, 255, 255}, // ::ffff:255.255.255.255
 		}
 		cases := []Case{}
 		for _, a := range forms {
@@ -913,7 +913,7 @@ type predicateCase struct {
 
 func main() {
 	r := vk.Start("C07", "exploration")
-	debug.SetGCPercent(800) // allocation-heavy, tiny live heap
+	debug.SetGCPercent(800)                        // allocation-heavy, tiny live heap
 	if p := os.Getenv("C07_CPUPROFILE"); p != "" { // development aid
 		if f, err := os.Create(p); err == nil {
 			pprof.StartCPUProfile(f)
